@@ -40,6 +40,21 @@ def tup(vals):
     return '()' if not vals else (vals[0] if len(vals) == 1 else '(' + ', '.join(vals) + ')')
 
 
+def opt_conjunct(node, env):
+    """`x` or `x is not None` for an optional local x -> its name"""
+    if isinstance(node, ast.Name):
+        name = node.id
+    elif (isinstance(node, ast.Compare) and len(node.ops) == 1 and isinstance(node.ops[0], ast.IsNot)
+          and isinstance(node.comparators[0], ast.Constant) and node.comparators[0].value is None
+          and isinstance(node.left, ast.Name)):
+        name = node.left.id
+    else:
+        return None
+    if name in env and env[name][1] in OPT and OPT[env[name][1]] in D.LEAN_TY:
+        return name
+    return None
+
+
 class TrOA(TrProg):
     def __init__(self, target):
         super().__init__(target)
@@ -59,10 +74,9 @@ class TrOA(TrProg):
         if isinstance(node, ast.Await):
             raise self.U('await inside an expression: ' + ast.unparse(node)[:60])
         # `x and <test using x>` for an optional local x
-        if (isinstance(node, ast.BoolOp) and isinstance(node.op, ast.And) and isinstance(node.values[0], ast.Name)
-                and node.values[0].id in env and env[node.values[0].id][1] in OPT
-                and OPT[env[node.values[0].id][1]] in D.LEAN_TY):
-            name = node.values[0].id
+        if (isinstance(node, ast.BoolOp) and isinstance(node.op, ast.And)
+                and opt_conjunct(node.values[0], env) is not None):
+            name = opt_conjunct(node.values[0], env)
             inner = OPT[env[name][1]]
             env2 = dict(env)
             env2[name] = (name, inner)
@@ -305,10 +319,8 @@ class TrOA(TrProg):
     def if_(self, s, rest, env, fall, ind, live):
         # `if x and <test>:` for an optional local x  ==  if x is not None: (if <test>: body else: E) else: E
         t = s.test
-        if (isinstance(t, ast.BoolOp) and isinstance(t.op, ast.And) and isinstance(t.values[0], ast.Name)
-                and t.values[0].id in env and env[t.values[0].id][1] in OPT
-                and OPT[env[t.values[0].id][1]] in D.LEAN_TY):
-            x = t.values[0]
+        if (isinstance(t, ast.BoolOp) and isinstance(t.op, ast.And) and opt_conjunct(t.values[0], env) is not None):
+            x = ast.Name(id=opt_conjunct(t.values[0], env), ctx=ast.Load())
             rest_test = t.values[1] if len(t.values) == 2 else ast.BoolOp(op=ast.And(), values=t.values[1:])
             inner = ast.If(test=rest_test, body=s.body, orelse=copy.deepcopy(s.orelse))
             outer = ast.If(test=ast.Compare(left=x, ops=[ast.IsNot()], comparators=[ast.Constant(value=None)]),
